@@ -36,7 +36,8 @@ RULE = ('spans: Hypothesis-generated comb (1-40 channels, mixed widths/powers, s
         'path) / Edfa (pmd/pdl) contributions interleaved, some fibres given in metres, x a generated permutation; non-trivial = >=2 fibres with distinct parameters and a non-identity permutation. '
         'raman: fibre 1-120 km x comb of 1-24 channels x method/order/solver step/result resolution x 0-2 lumped '
         'losses x one inserted lumped loss; non-trivial = >=1 lumped loss (always: the inserted one). '
-        'pumps: RamanFiber 5-80 km, 1-8 channels below 197.5 THz, 1-3 pumps at 200-207 THz (counter, sometimes one co); '
+        'pumps: RamanFiber 5-80 km, 1-8 channels below 197.5 THz, 1-3 pumps at 200-207 THz (counter, sometimes one co), '
+        'total pump power <= 0.6 W x A_eff/83 um^2; '
         'non-trivial = >=1 pump (always). distinct = distinct sha1 of the case JSON.')
 ASSUMPTIONS = ['elements are applied directly (Fiber(si), Roadm(si, degree, from_degree), Edfa(si)) as propagate() does',
                'lumped-loss positions are distinct (the YANG model keys the list by position)',
@@ -160,10 +161,19 @@ def pump_cases(draw):
     length = draw(st.one_of(st.sampled_from([80.0, 40.0]), st.floats(5.0, 80.0).map(lambda v: round(v, 3))))
     fp = draw(fibres.fibre(f_lo, f_hi, length_km=length, per_frequency_loss=False))
     fp['lumped_losses'] = fp.get('lumped_losses', [])[:1]
+    # Pump powers by construction inside the regime the Euler-type iterative solver is meant for: the total pump power
+    # is at most 0.6 W scaled by A_eff/83 um^2 (small-signal on-off gain <~ 20 dB, DESIGN: 7-13 dB for 0.45 W).
+    # Beyond ~45 dB on-off gain the iteration diverges to NaN within 3 sweeps at 500 m-1 km steps (see report).
+    aeff = fp.get('effective_area') or (2 * math.pi * 2.6e-20 / (fp.get('ref_wavelength', 1550e-9) * fp['gamma'])
+                                        if 'gamma' in fp else 83e-12)
+    if 'ref_frequency' in fp and 'effective_area' not in fp and 'gamma' in fp:
+        aeff = 2 * math.pi * 2.6e-20 / (C / fp['ref_frequency'] * fp['gamma'])
+    budget = 0.6 * aeff / 83e-12 * draw(st.sampled_from([1.0, 0.75, 0.5, 0.2, 0.05]))
     npumps = draw(st.integers(1, 3))
+    weights = [draw(st.integers(1, 10)) for _ in range(npumps)]
     pumps = []
     for i in range(npumps):
-        pumps.append({'power': draw(st.one_of(st.sampled_from([0.2, 0.25, 0.1]), st.floats(0.005, 0.4).map(lambda v: round(v, 4)))),
+        pumps.append({'power': fibres._r(budget * weights[i] / sum(weights), 4),
                       'frequency': draw(st.floats(200e12, 207e12).map(lambda v: float(round(v / 1e9) * 1e9))),
                       'propagation_direction': 'counterprop'})
     if npumps >= 2 and draw(st.integers(0, 3)) == 0:
@@ -264,7 +274,7 @@ def _roadm_impairment(el, f, name):
 
 
 def _chain(case, order, ctx, tag):
-    """apply the elements in `order`; check every fibre's loss budget; return the final observables"""
+    """apply the elements in `order`; return every fibre's P_out/P_in and the final observables"""
     chans = case['comb']
     si = fibres.si_from(chans)
     freqs = [float(f) for f in si.frequency]
@@ -273,7 +283,6 @@ def _chain(case, order, ctx, tag):
         el = case['elements'][i]
         obj, apply = _build(el, i)
         before = [float(x) for x in si.pch]
-        cd_before = [float(x) for x in si.chromatic_dispersion]
         si = apply(si)
         if [float(f) for f in si.frequency] != freqs:
             ctx.violation(f'{el["kind"]}:channel-set-changed', f'{tag}: element {i}')
@@ -281,7 +290,7 @@ def _chain(case, order, ctx, tag):
         if el['kind'] == 'fiber':
             after = [float(x) for x in si.pch]
             ratio = [a / b for a, b in zip(after, before)]
-            per_fibre[i] = {'ratio': ratio, 'cd': [float(a) - b for a, b in zip(si.chromatic_dispersion, cd_before)]}
+            per_fibre[i] = {'ratio': ratio}
     return {'freqs': freqs, 'pch': [float(x) for x in si.pch], 'cd': [float(x) for x in si.chromatic_dispersion],
             'pmd': [float(x) for x in si.pmd], 'pdl': [float(x) for x in si.pdl],
             'latency': [float(x) for x in si.latency], 'per_fibre': per_fibre}
@@ -563,6 +572,10 @@ def _run_pumps(case, ctx):
                                 cls=RamanFiber, operational={'temperature': case['temperature'], 'raman_pumps': pumps})
     gains = []
     for f, w, wo in zip(freqs, with_p, without):
+        if not (math.isfinite(w) and w > 0):
+            ctx.violation('RamanFiber.__call__:non-finite-output-with-pumps',
+                          f'ch {f}: P_out/P_in with pumps {w!r} (pumps {pumps}, step {case["step"]}, fibre {fp})')
+            return
         if not (w >= wo * (1 - 1e-6)):
             ctx.violation('RamanFiber.__call__:pumps-reduce-channel-power',
                           f'ch {f}: P_out/P_in with pumps {w!r} < without {wo!r} (pumps {pumps}, step {case["step"]})')
